@@ -5,12 +5,70 @@ core/node.py in Model/TreeAlgo.v, over the functional trees of Model/TreeDef.v; 
 Tie: harness/c11.py builds real Node graphs (all 676 shapes of depth <= 3 in two labellings, sampled depth-4
 shapes, GROW-generated trees), calls the real n_nodes/n_leaves/min_depth/max_depth/pre_order/post_order and
 find_node(p) for every p in [0, size+1]; Coq evaluates the model on the same trees with vm_compute and compares
-inside Coq.  The property oracle (independent recursive reference) is evaluated on the implementation itself."""
+inside Coq.  The property oracle (independent recursive reference) is evaluated on the implementation itself.
+Translator: translate/t_treealgo.py regenerates Gen/TreeAlgoDescr.v (descriptions of pre_order, post_order, _properties,
+find_node over the mini-IR of Model/TreeAlgoDescr.v) from the source on every run; Props/C11.v proves each equal to the
+hand-stated description (reflexivity), and Model/TreeAlgoDescrProofs.v proves interpreter(description) = mirror."""
 import json
+import os
 import re
 from concurrent.futures import ThreadPoolExecutor
 
 from vlib import core
+from translate import t_treealgo
+
+DESCR = (('pre_order_descr', 'descr_pre', 'Node.pre_order'), ('post_order_descr', 'descr_post', 'Node.post_order'),
+         ('properties_descr', 'descr_props', '_properties + n_nodes/n_leaves/min_depth/max_depth'),
+         ('find_node_descr', 'descr_find', 'Node.find_node'))
+
+
+def regenerate():
+    text, items, errors = t_treealgo.generate(core.REPO)
+    core.write_if_changed(os.path.join(core.GEN, 'TreeAlgoDescr.v'), text)
+    return errors
+
+
+def check_descriptions(ctx, report=True):
+    """Regenerate Gen/TreeAlgoDescr.v from the current source; one obligation per function: translated, and
+    literally equal to the hand-stated description (the same equalities are theorems of Props/C11.v)."""
+    text, items, errors = t_treealgo.generate(core.REPO)
+    core.write_if_changed(os.path.join(core.GEN, 'TreeAlgoDescr.v'), text)
+    for it in items[:2]:
+        ctx.sample({'regenerated_from': '%s:%d' % (it['file'], it['line']), 'text': it['text']})
+    failed = set()
+    for er in errors:
+        failed.add(er['item'])
+        ctx.oblige('T-treealgo translation of %s' % er['item'], False, '%s:%s: %s' % (er['file'], er['line'], er['msg']))
+    ctx.oblige('T-treealgo translated %d of 4 functions of core/node.py' % (4 - len(failed)), not errors,
+               '; '.join('%s: %s' % (e['item'], e['msg']) for e in errors))
+    okb, log = ctx.build(['theories/Gen/TreeAlgoDescr.vo'])
+    if not okb:
+        ctx.oblige('coq-build theories/Gen/TreeAlgoDescr.vo', False, core.coq_error_excerpt(log))
+        return {}
+    lines = ['From Coq Require Import List ZArith.', 'From OV Require Import Model.TreeAlgoDescr.', 'From OV Require Gen.TreeAlgoDescr.']
+    for gen, hand, _ in DESCR:
+        lines.append('Goal True. first [ assert (OV.Gen.TreeAlgoDescr.%s = Some %s) by reflexivity; idtac "@@DESCR %s same" '
+                     '| idtac "@@DESCR %s DIFFERS" ]. exact I. Qed.' % (gen, hand, gen, gen))
+    okc, outc = ctx.coq_eval('\n'.join(lines) + '\n', 'descr', timeout=300)
+    gen_defs = {}
+    for blk in text.split('Definition ')[1:]:
+        gen_defs[blk.split(' ')[0]] = 'Definition ' + blk.strip()
+    res = {}
+    err_of = {e['item']: '%s:%s: %s' % (e['file'], e['line'], e['msg']) for e in errors}
+    for gen, hand, what in DESCR:
+        same = okc and ('@@DESCR %s same' % gen) in outc
+        res[gen] = same
+        ctx.oblige('regenerated description of %s = %s (Model/TreeAlgoDescr.v)' % (what, hand), same,
+                   ('the source no longer has the shape the mirror of Model/TreeAlgo.v implements; regenerated:\n%s'
+                    % gen_defs.get(gen, '?')) if okc else outc[-1500:])
+        if not same and report:
+            ctx.report('descr:' + gen,
+                       'the description of %s regenerated from the source is not the one the model implements (%s): the '
+                       'theorems of Props/C11.v no longer speak about this code'
+                       % (what, err_of.get(gen, 'translated, but a push order / condition / update / return differs')),
+                       {'kind': 'description', 'item': gen, 'expected': hand, 'regenerated': gen_defs.get(gen),
+                        'translation_error': err_of.get(gen)}, found_input=False)
+    return res
 
 CHUNK = 500
 BITS = {1: ('measurements (n_nodes, n_leaves, min_depth, max_depth)', 'C11_measurements'),
@@ -96,10 +154,13 @@ def run(ctx):
                'parent/flag fields are the structural links (child.parent = node, right child flag False, root parent None): '
                'set so by TreeSpace.grow and by the harness builder; compared with heap_of t inside Coq on every case',
                'positions are non-negative ints (a negative position indexes from the end in Python; outside the property text)')
-    ctx.trust('Model/TreeAlgo.v is a hand-written mirror of core/node.py (pre_order, post_order, _properties, find_node); '
-              'tied by the correspondence run, not by a translator',
+    ctx.trust('translator T-treealgo (translate/t_treealgo.py): core/node.py pre_order / post_order / _properties / find_node -> '
+              'descriptions over the mini-IR of Model/TreeAlgoDescr.v (its interpreter is the stated meaning of a description)',
+              'Model/TreeAlgo.v is a hand-written mirror; proved equal to the interpreter on the regenerated descriptions, '
+              'and compared with the real methods by the correspondence run',
               'harness/c11.py: graph builder, pre-order index serialisation, recursive reference oracle',
               'props/C11.py: Coq encoding of the observed cases')
+    check_descriptions(ctx)
     ok, log = ctx.build_props()
     rc, data, out = ctx.run_harness_json('c11.py', payload={'mode': 'run'}, timeout=1500)   # a payload so that stdin is a pipe
     if data is None:
@@ -247,6 +308,14 @@ def run(ctx):
 
 def replay(ctx, path):
     doc = json.load(open(path))
+    if doc.get('replay', {}).get('kind') == 'description':
+        res = check_descriptions(ctx, report=False)
+        item = doc['replay']['item']
+        print(json.dumps({'item': item, 'regenerated_equals_model_description': res.get(item)}, indent=1))
+        if not res.get(item):
+            print('VIOLATION property=C11 replay=%s' % path)
+            return 1
+        return 0
     rc, data, out = ctx.run_harness_json('c11.py', payload=doc, timeout=300)
     if data is None:
         print(out[-2000:])
